@@ -713,6 +713,14 @@ func (ex *Exec) callExternal(c *ast.CallExpr, o *types.Func, args []Term, argTyp
 		l := ex.U.SeqLen(r)
 		ex.fact(Implies(Eq(args[2], IntLit(2)), And(Term{"(>= " + l.S + " 1)", SBool}, Term{"(<= " + l.S + " 2)", SBool},
 			Eq(Eq(l, IntLit(2)), Term{app("str.contains", args[0], args[1]), SBool}))))
+		// with n == 2 and a non-empty separator that occurs: the text before its first occurrence and the rest; otherwise the text itself
+		if ss.Kind == KSeq {
+			at := func(i int) string { return "(at_" + ss.Elem.Name + " " + r.S + " " + fmt.Sprint(i) + ")" }
+			idx := "(str.indexof " + args[0].S + " " + args[1].S + " 0)"
+			two := "(and (= " + at(0) + " (str.substr " + args[0].S + " 0 " + idx + ")) (= " + at(1) + " (str.substr " + args[0].S + " (+ " + idx + " (str.len " + args[1].S + ")) (str.len " + args[0].S + "))))"
+			ex.fact(Implies(And(Eq(args[2], IntLit(2)), Term{"(> (str.len " + args[1].S + ") 0)", SBool}),
+				Term{"(ite (str.contains " + args[0].S + " " + args[1].S + ") " + two + " (= " + at(0) + " " + args[0].S + "))", SBool}))
+		}
 		return []Term{r}
 	case "sort.Sort", "sort.Strings":
 		if args[0].Sort.Kind == KSeq {
